@@ -126,6 +126,7 @@ def unmarshall_contracts(world):
             except TypeError as ex:
                 raise TypeError("%s.unmarshall_datain() %s" % (_cls.__name__, ex)) from None
             res = V.SOpaque("unmarshalled:" + _cls.__name__, args, kwargs)
+            res.truth = getattr(world, "decoded_truth", None)  # empty / non-empty result: an input of the contract
             world.trace.append(("unmarshall", _cls, args[0] if args else None, dict(kwargs), res))
             return res
 
@@ -152,6 +153,7 @@ def decoders_replaced(world):
             if _kind in ("class", "plain"):
                 args = args[1:]
             res = V.SOpaque("unmarshalled:" + _cls.__name__, args, kwargs)
+            res.truth = getattr(world, "decoded_truth", None)  # empty / non-empty result: an input of the contract
             world.trace.append(("unmarshall", _cls, args[0] if args else None, dict(kwargs), res))
             return res
 
@@ -287,6 +289,7 @@ class FacadeUnit(Unit):
                 d[p] = U(w)
         d["fill"] = U(8)
         d["resp"] = Bytes(12, mutable=False)
+        d["decoded_truth"] = Flag()  # whether the decoder's result (an uninterpreted value here) is empty or not
         return d
 
     def structured_args(self, case, a):
@@ -300,6 +303,7 @@ class FacadeUnit(Unit):
         w = self.world if X.symbolic else World()
         self.world = w
         del w.trace[:]
+        w.decoded_truth = a.get("decoded_truth")
         dev = RecordingDevice(C.table(case["set"]), w, fails=case["fails"], fill=a.get("fill", 0), resp=a.get("resp"))
         self.dev = dev
         s = object.__new__(S)
